@@ -32,6 +32,9 @@ What is extracted
          (db->background_compaction_scheduled, set/cleared under db->mutex;
          one pool thread); guards the MANIFEST writer of ldb_versions_apply
          while db->mutex is released.
+ (e) every object with static storage duration that is not const (file scope or function local):
+     the known ones are hand-listed (STATIC_ALLOW) with what serialises them; any other one becomes an
+     unguarded shared write class, which check_facts rejects.
  (d) hand-listed, textually CONFIRMED entries (CONFIRM): the fresh-object writes
      that precede publication in the skiplist/memtable/arena, whose ordering
      w.r.t. the publishing store is checked by position in the function body.
@@ -613,6 +616,41 @@ def confirm_publication(problems):
 def coq_str(s):
     return '"' + s.replace('"', "'") + '"'
 
+# ------------------------------------------------------------------ (e) static-duration mutable storage
+STATIC_ALLOW = {
+    'util/atomic.c:ldb_atomic_lock': 'a mutex (fallback implementation of the atomics)',
+    'util/crc32c.c:result': 'one-time CPU-feature probe; written under the spinlock `lock` next to it, every writer stores the same value',
+    'util/crc32c.c:lock': 'spinlock of the CPU-feature probe',
+    'util/env_unix_impl.h:ldb_fd_limiter': 'counting limiter, accessed with atomic operations only (the ldb_limiter functions)',
+    'util/env_unix_impl.h:ldb_mmap_limiter': 'counting limiter, accessed with atomic operations only (the ldb_limiter functions)',
+    'util/env_unix_impl.h:file_mutex': 'a mutex (guards file_set: lock class M_file)',
+    'util/env_unix_impl.h:file_set': 'table of locked files, guarded by file_mutex (lock class M_file, checked by the lock-region scan)',
+    'util/env_unix_impl.h:guard': 'pthread_once / once-flag of ldb_env_init',
+    'util/rbt.c:sentinel': 'the shared NIL node of the red-black trees; its fields are only written with values that no reader depends on (CLRS sentinel), trees themselves are guarded by their owners',
+    'util/rbt.c:NIL': 'pointer to the sentinel, never reassigned',
+}
+
+def scan_statics():
+    """every `static` object declaration (file scope or function local) of the library sources that is not const"""
+    import glob
+    src = os.path.join(REPO, 'src')
+    files = sorted(glob.glob(src + '/*.c') + glob.glob(src + '/*.h') + glob.glob(src + '/util/*.c') + glob.glob(src + '/util/*.h') +
+                   glob.glob(src + '/table/*.c') + glob.glob(src + '/table/*.h'))
+    out = []
+    for f in files:
+        rel = os.path.relpath(f, src)
+        if re.search(r'env_win|env_mem|testutil|(^|/)t-', rel): continue
+        txt = re.sub(r'/\*.*?\*/', lambda m: '\n' * m.group(0).count('\n'), open(f, errors='replace').read(), flags=re.S)
+        for m in re.finditer(r'(?m)^[ \t]*static\b([^;{]*)([;{])', txt):
+            decl, end = m.group(1), m.group(2)
+            head = decl.split('=')[0]
+            if '(' in head: continue                    # a function
+            if re.search(r'\bconst\b', head): continue
+            if end == '{' and '=' not in decl: continue
+            nm = re.findall(r'([A-Za-z_]\w*)\s*(?:\[[^\]]*\])*\s*$', head.strip())
+            out.append((rel, txt[:m.start()].count('\n') + 1, nm[0] if nm else '?', ' '.join(decl.split())[:90]))
+    return out
+
 def main():
     if len(sys.argv) < 2:
         print(__doc__); return 2
@@ -672,6 +710,16 @@ def main():
     # arena allocation state: only the inserter (queue head) or recovery touches it
     add_class('arena.alloc_state', 'Write', 'NonAtomic', ('GLock', (Q_HEAD,)), 'RPlain',
               'util/arena.c:ldb_arena_alloc* data/left/blocks, reached only from ldb_memtable_add <- ldb_batch_insert_into (HAND-LISTED; call site checked: class memtable.insert)')
+
+    # (e) storage with static duration that is not const: every such object is shared by ALL handles and threads of the
+    #     process; the known ones are hand-listed with what serialises them, any other one is an unguarded shared write
+    for (rel, line, name, decl) in scan_statics():
+        key = '%s:%s' % (rel, name)
+        if key in STATIC_ALLOW:
+            notes.append('static %s (%s): %s' % (key, decl, STATIC_ALLOW[key]))
+            continue
+        lc = 'static:%s' % key
+        add_class(lc, 'Write', 'NonAtomic', ('GLock', ()), 'RPlain', '%s:%d static %s -- mutable static storage not in the hand-listed table (shared by every thread that calls the enclosing function)' % (rel, line, decl))
 
     # lock-region accesses -> classes
     for a in accesses:
